@@ -114,6 +114,22 @@ def p_from_lines(t):
         return 'raises %s' % type(e).__name__
     if r1 != want:
         return 'the lines of the text parse to %r, the text to %r' % (r1, want)
+    # a caller changing what it got (objects and lists alike) does not change what the next call returns
+    try:
+        first = list(deb822.get_paragraphs_as_field_groups(t))
+        for g in first:
+            for f in g:
+                for l in f.lines:
+                    l.value, l.number = 'changed', 0
+                f.lines.append(deb822.NumberedLine(number=99, value='added'))
+                f.name = 'renamed'
+            g.append(deb822.Deb822Field(name='extra', lines=[]))
+        first.append([])
+        again = _d822.groups_t(deb822.get_paragraphs_as_field_groups(t))
+    except Exception as e:  # noqa
+        return 'raises %s' % type(e).__name__
+    if again != want:
+        return 'after a caller changed an earlier result in place, the text parses to %r, before to %r' % (again, want)
     if r4 != r1:
         return 'the same lines numbered from %d parse to %r, numbered from 1 to %r' % (k + 1, r4, r1)
     if r2 != r1 or r3 != r1:
